@@ -21,10 +21,10 @@ import (
 	"github.com/prometheus/prometheus/discovery/targetgroup"
 	"github.com/prometheus/prometheus/scrape"
 
+	"github.com/prometheus/client_golang/prometheus"
 	"kvassverif/internal/cfggen"
 	"kvassverif/internal/core"
 	"kvassverif/internal/sc"
-	"github.com/prometheus/client_golang/prometheus"
 
 	kdisc "tkestack.io/kvass/pkg/discovery"
 	"tkestack.io/kvass/pkg/explore"
